@@ -242,9 +242,10 @@ def _check_all(times, start, nd, img_dt, flt_dt, photon3d, writes, debug):
                 res["debug"]["changed_bucket_not_recorded"] = sorted(first.data_vars)
         except KeyError as e:
             res["debug"]["missing_node"] = str(e)
-        rec = _debug_records(times, start, nd, img_dt, flt_dt)
-        if rec:
-            res["debug"]["per_model_records"] = rec
+        for mode_nd in (False, True):  # both readout modes on this schedule (the reset differs between them)
+            rec = _debug_records(times, start, mode_nd, img_dt, flt_dt)
+            if rec:
+                res["debug"][f"per_model_records/non_destructive={mode_nd}"] = rec
     if "scene" not in dt_h.children or "data" not in dt_h.children:
         res["layouts"]["scene_or_data_missing"] = sorted(dt_h.children)
     return res
